@@ -82,7 +82,28 @@ def C14():
                 outside=["tpkt::Client::write end to end", "payloads > 8 bytes under symbolic short writes", "TLS stream"])
 
 
-PROPS = {"C13": C13, "C14": C14}
+def C19():
+    jobs = [Kani("c19_blit_twin", "vacuity twin", expect="fail", fail_desc="twin reached", ptr_checks=True, timeout=300, mem_gb=6)]
+    for name, w, h, d, q in (("1x1_d4", 1, 1, 4, True), ("2x2_d0", 2, 2, 0, True), ("2x2_d16", 2, 2, 16, True), ("3x2_d24", 3, 2, 24, False),
+                             ("3x3_d36", 3, 3, 36, False), ("2x3_d7", 2, 3, 7, True)):
+        jobs.append(Kani("c19_blit_" + name,
+                         "fast_bitmap_transfer into a %dx%d window (symbolic contents) from a raw 32 bpp image of %d symbolic bytes, all rectangle coordinates and image width/height arbitrary u16: no panic, no out-of-bounds or misaligned access; Ok and rectangle inside the window => exactly the rectangle's rows copied, everything else unchanged" % (w, h, d),
+                         tiers=("quick", "thorough") if q else ("thorough",), ptr_checks=True,
+                         bounds={"window": "%dx%d" % (w, h), "image_bytes": d, "rectangle": "4 x any u16", "image w/h": "any u16"},
+                         symbolic=["left", "top", "right", "bottom", "width", "height", "window pixels", "image bytes"],
+                         functions=["mstsc-rs::fast_bitmap_transfer", "mstsc-rs::transmute_vec", "core::event::BitmapEvent::decompress (raw 32 bpp arm)"],
+                         timeout=900, mem_gb=10))
+    return Prop("C19", [("core/event.rs", "gui.rs")], jobs, lowerings=["L4"],
+                assumptions=[DEV, "L4: the two GUI functions are cut text-identically from src/bin/mstsc-rs.rs and compiled inside the library crate (minifb/clap never compiled)",
+                             "CBMC pointer checks ON (the code is `unsafe`)", "image delivered as raw 32 bpp (decompress returns the data unchanged); other depths are C08's subject"],
+                text="Bounded model checking of the real fast_bitmap_transfer/transmute_vec with full pointer instrumentation: every rectangle (4 x u16) and image geometry against windows up to 3x3 and images up to 36 bytes, with an exact blit oracle. Memory safety of an unsafe copy over arbitrary geometry is a SAT question over a handful of 16-bit fields.",
+                note="Bounds: window <= 3x3, image data <= 36 bytes, 32 bpp raw input. The Vec<u8> -> Vec<u32> re-layout in transmute_vec is UB by the letter of Vec::from_raw_parts (allocation layout); CBMC does not model allocator layouts, so that class is not decided.",
+                technique="Kani/CBMC bounded model checking (SAT) with pointer checks of the GUI blit extracted from the binary, symbolic rectangle and buffers",
+                design_ref="DESIGN.md §4 C19",
+                outside=["windows larger than 3x3", "compressed / 16 bpp input on this path (C08)", "allocator layout UB of transmute_vec"])
+
+
+PROPS = {"C13": C13, "C14": C14, "C19": C19}
 
 MIR_PROPS = ["C13", "C14"]
 
@@ -94,5 +115,5 @@ NOT_APPLICABLE = {
     "C15": "CHALLENGE -> AUTHENTICATE needs read_target_info (size idiom) and a 25-field emitter with three to_vec calls; neither is executable by the solver-based engines here",
     "C20": "thread interleavings, select(2) and OpenSSL record buffering are concurrency + FFI; Kani does not model them and no sequential kernel implies the property",
 }
-for _p in ["C01", "C02", "C04", "C05", "C06", "C07", "C08", "C09", "C12", "C16", "C17", "C18", "C19"]:
+for _p in ["C01", "C02", "C04", "C05", "C06", "C07", "C08", "C09", "C12", "C16", "C17", "C18"]:
     NOT_APPLICABLE.setdefault(_p, _TODO)
